@@ -14,3 +14,18 @@ package core
 //@   loop 1
 //@     invariant recvcount(events) >= 0 && repository.cursorStores == old(repository.cursorStores)
 //@     invariant noError ==> (forall k int :: { recvat(events, k) } 0 <= k && k < recvcount(events) ==> recvat(events, k).Event != ImportEventError)
+
+// The result constructors only build a value.
+//@ func NewImportError
+//@ func NewImportWarning
+//@ func NewImportNothing
+//@ func NewImportBug
+//@ func NewImportComment
+//@ func NewImportCommentEdition
+//@ func NewImportStatusChange
+//@ func NewImportLabelChange
+//@ func NewImportTitleEdition
+//@ func NewImportIdentity
+//@ func NewImportRateLimiting
+//@   props C16
+//@   modifies nothing
